@@ -25,7 +25,7 @@ def metadataRetryIntervalSec : Int := Generated.metadataRetryIntervalSec
 def initializeMetadataLoops : Bool := Generated.initializeMetadataLoops
 def initWaitSec : Int := Generated.initWaitSec
 /-- cookie contents are encrypted iff a block key is passed to the cookie store -/
-def cookiesEncrypted : Bool := decide (2 ≤ cookieStoreKeyArgs)
+def cookiesEncrypted : Bool := decide (2 ≤ cookieStoreKeyArgs) && cookieStoreAllPairsEncrypted
 def mainCookieName : String := Generated.mainCookieName
 def accessCookieName : String := Generated.accessTokenCookie
 def refreshCookieName : String := Generated.refreshTokenCookie
